@@ -640,11 +640,11 @@ def c18_runs(tier, seed):
     runs = [
         # many short-lived processes: first-use initialisation (function-local
         # statics, lazily filled tables) happens under contention in each
-        RunSpec("threads", "d", "tsan", q(tier, 96, 4000), shards=q(tier, 32, 400),
+        RunSpec("threads", "d", "tsan", q(tier, 96, 2000), shards=q(tier, 32, 200),
                 libs=th),
-        RunSpec("threads", "Q", "tsan", q(tier, 32, 1200), shards=q(tier, 16, 200),
+        RunSpec("threads", "Q", "tsan", q(tier, 32, 600), shards=q(tier, 16, 100),
                 libs=th, params={"len": 16}),
-        RunSpec("threads", "d", "nochk", q(tier, 640, 60000), shards=32, libs=th),
+        RunSpec("threads", "d", "nochk", q(tier, 640, 30000), shards=32, libs=th),
         # forced preemption: the same workload pinned to two cores
         RunSpec("threads", "d", "nochk", q(tier, 96, 6000), shards=4, libs=th,
                 params={"pin": 2}),
@@ -652,8 +652,8 @@ def c18_runs(tier, seed):
                 libs=th, params={"pin": 2, "len": 16}),
     ]
     if tier == "thorough":
-        runs += [RunSpec("threads", "d", "tsan-clang", 2000, shards=200, libs=th),
-                 RunSpec("threads", "ld", "nochk", 20000, shards=32, libs=th)]
+        runs += [RunSpec("threads", "d", "tsan-clang", 1000, shards=100, libs=th),
+                 RunSpec("threads", "ld", "nochk", 10000, shards=32, libs=th)]
     return runs
 
 
